@@ -382,6 +382,25 @@ func usesElem(el *eng.ElemLoop, e ast.Expr) bool {
 	return found
 }
 
+// usesElemVia is usesElem that also looks through locals of the loop body that are assigned once (`m := elem.Meta()`).
+func usesElemVia(info *types.Info, el *eng.ElemLoop, e ast.Expr) bool {
+	if usesElem(el, e) {
+		return true
+	}
+	found := false
+	ast.Inspect(e, func(n ast.Node) bool {
+		if id, ok := n.(*ast.Ident); ok && !found {
+			if v, isV := info.Uses[id].(*types.Var); isV && !v.IsField() && el.Body != nil && el.Body.Pos() <= v.Pos() && v.Pos() < el.Body.End() {
+				if r := resolveLocal(info, el.Body, id); r != ast.Expr(id) && usesElem(el, r) {
+					found = true
+				}
+			}
+		}
+		return !found
+	})
+	return found
+}
+
 // elemLoopCalling finds a whole-slice loop in body over a slice accepted by base in which every iteration (no early
 // exit) calls method m on the element of that iteration. el is the last candidate loop seen (for reports).
 func elemLoopCalling(g *eng.Graph, info *types.Info, body ast.Node, base func(ast.Expr) bool, m *types.Func) (el *eng.ElemLoop, ok bool) {
@@ -1293,6 +1312,17 @@ func copyAliases(info *types.Info, body ast.Node) func(a, b types.Object) bool {
 		return o
 	}
 	local := func(e ast.Expr) types.Object {
+		// a field selection stands for the field (of whatever struct value): coarse, but copies out of a result struct
+		// (`xs := res.Items`) are what connects the code before and after an accumulate-in-place refactoring
+		if sel, isSel := ast.Unparen(e).(*ast.SelectorExpr); isSel {
+			if fv, isF := info.Uses[sel.Sel].(*types.Var); isF && fv.IsField() {
+				switch fv.Type().Underlying().(type) {
+				case *types.Pointer, *types.Map, *types.Slice, *types.Interface, *types.Chan, *types.Signature:
+					return fv
+				}
+			}
+			return nil
+		}
 		id, ok := ast.Unparen(e).(*ast.Ident)
 		if !ok {
 			return nil
